@@ -69,6 +69,12 @@ def programs(tier):
     # decode to the same string, a \U escape is not JSON)
     for name, txt in (("latin", "caf\u00e9"), ("cjk", "\u4e16\u754c"), ("emoji", "hi \U0001f600"), ("mixed", "\u00e9\u4e16\U0001f600!")):
         add(f"json-string:non-ascii-{name}", [Let("s", Str(txt.encode("utf-8"))), Let("v", pval(1, Var("s"), True), ty=P)] + both("v", "P"), expect="accept")
+    # comments after / below a derive attribute are trivia: the derive still applies
+    def commented(p):
+        p.struct("Sc", [("a", INT32), ("s", STRING)], derives=["ToString", "ToJson", "//"])
+        p.enum("Ec", [("K0", []), ("K1", [TAdt("Sc")])], derives=["ToJson", "//", "|", "ToString", "//"])
+    add("derive-attribute-followed-by-comment", [Let("v", Struct(TAdt("Sc"), [("a", Int(3)), ("s", Str("x"))]), ty=TAdt("Sc"))] + both("v", "Sc")
+        + [Let("w", Ctor(TAdt("Ec"), "K1", Var("v")), ty=TAdt("Ec"))] + both("w", "Ec"), expect="accept", extra_decl=commented)
     # stacked derive attributes: #[derive(ToString)] and #[derive(ToJson)] on separate lines mean the same as one combined attribute
     def stacked(p):
         p.struct("St", [("a", INT32), ("s", STRING)], derives=["ToString"])
